@@ -131,7 +131,7 @@ func c07GenOffer(r *Rand, hostile int) jCase {
 
 func c07Corpus() []jCase {
 	sec := func(k, m, d string) jSec { return jSec{Kind: k, Mid: m, Dir: d, Codec: true} }
-	return []jCase{
+	return append([]jCase{
 		// the design probe: audio mid 0, m=text mid 1, video mid 2 without direction => one section
 		{Peers: 1, Ops: []jOp{
 			{Op: "srd", Ty: "offer", Desc: &jDesc{Secs: []jSec{sec("audio", "0", "sendrecv"), sec("text", "1", "sendrecv"), sec("video", "2", "")}, Group: jStr("BUNDLE 0 1 2")}},
@@ -154,7 +154,7 @@ func c07Corpus() []jCase {
 			{Op: "add", Kind: "audio", Dir: "sendrecv"}, {Op: "add", Kind: "video", Dir: "recvonly"},
 			{Op: "srd", Ty: "offer", Desc: &jDesc{Secs: []jSec{sec("video", "v", "sendonly"), sec("application", "d", ""), sec("audio", "a", "sendrecv"), sec("video", "w", "inactive")}, Group: jStr("BUNDLE v d a")}},
 			{Op: "answer"}}},
-	}
+	}, jCorpusOps()...)
 }
 
 func init() {
